@@ -343,9 +343,5 @@ def run(ctx):
 
 
 def replay(ctx, path):
-  with open(path) as f:
-    rec = json.load(f)
-  for ev in rec["events"]:
-    log(json.dumps({k: ev.get(k) for k in ("what", "keys", "vals", "tolu")}))
-  log("re-run ./check C09 (subjects are regenerated from the seed)")
-  return 0
+  """The cases are regenerated from the seed recorded in the replay file: re-execute and compare."""
+  return common.rerun_replay(ctx, path, run)
